@@ -39,12 +39,13 @@ def _high_targets():
 
 @st.composite
 def _cases(draw):
-    s = draw(gen.score_sets(max_size=8, modes=MODES, mag=1e6, containers=("f64", "f64", "f32", "list", "neg-int", "pos-int", "neg-f32", "f128")))
+    s = draw(gen.score_sets(max_size=8, modes=MODES, mag=1e6, huge_easy="beyond-float", containers=("f64", "f64", "f32", "list", "neg-int", "pos-int", "neg-f32", "f128")))
     lows = draw(st.lists(_low_targets(), min_size=1, max_size=2))
     highs = draw(st.lists(_high_targets(), min_size=1, max_size=2))
     interior = draw(st.lists(st.floats(min_value=0.01, max_value=0.99), min_size=0, max_size=2))
     mix = draw(st.permutations(lows + highs + interior))
-    return dict(s=s, targets=list(mix), scalar_idx=draw(st.integers(0, len(mix) - 1)))
+    return dict(s=s, targets=list(mix), scalar_idx=draw(st.integers(0, len(mix) - 1)),
+                sentinel=draw(st.sampled_from([None, None, None, "low", "high", "both"])))
 
 
 def _check_obj(s, targets, scalar_idx, tag="", int_array=False):
@@ -71,13 +72,24 @@ def _check_obj(s, targets, scalar_idx, tag="", int_array=False):
                 t = np.asarray(th(rs, method=meth), dtype=float)
                 v = np.asarray(f(t), dtype=float)
                 for i, r in enumerate(targets):  # pristine values: the array object rs is re-used
+                    if r <= 0 or r >= 1:
+                        # ... and by exact counting at the returned threshold (for class totals
+                        # beyond 2^53 the float rates can no longer tell two thresholds apart)
+                        exact = rate_frac(m, ref_cm(pos, neg, float(t[i]), sc, ec, ep, en))
+                        want = lo if r <= 0 else hi
+                        require(exact == want, f"ext:{m}:low" if r <= 0 else f"ext:{m}:high",
+                                lambda: f"{tag}{m} config={sc}/{ec} method={meth} r={r!r}: counting at the returned "
+                                        f"threshold {t[i]!r} gives {m}={exact}, the "
+                                        f"{'lowest' if r <= 0 else 'highest'} achievable value is {want}")
+                    if len(pos) + len(neg) + ep + en >= 2**53:
+                        continue  # the float rates themselves are rounded there; counting decides
                     if r <= 0:
-                        require(v[i] == lo_f, "ext:low",
+                        require(v[i] == lo_f, f"ext:{m}:low",
                                 lambda: f"{tag}{m} config={sc}/{ec} method={meth} r={r!r}: threshold "
                                         f"{t[i]!r} gives {m}={v[i]!r}, lowest achievable is {lo_f!r} "
                                         f"({lo})")
                     elif r >= 1:
-                        require(v[i] == hi_f, "ext:high",
+                        require(v[i] == hi_f, f"ext:{m}:high",
                                 lambda: f"{tag}{m} config={sc}/{ec} method={meth} r={r!r}: threshold "
                                         f"{t[i]!r} gives {m}={v[i]!r}, highest achievable is {hi_f!r} "
                                         f"({hi})")
@@ -87,19 +99,45 @@ def _check_obj(s, targets, scalar_idx, tag="", int_array=False):
                     r = int(r)  # 0, 1, -1, 2 ... as the caller would write them
                 if r <= 0 or r >= 1:
                     ts = th(r, method=meth)
+                    exact = rate_frac(m, ref_cm(pos, neg, float(ts), sc, ec, ep, en))
+                    require(exact == (lo if r <= 0 else hi), f"ext:{m}:low" if r <= 0 else f"ext:{m}:high",
+                            lambda: f"{tag}{m} config={sc}/{ec} method={meth} scalar r={r!r}: counting at "
+                                    f"threshold {ts!r} gives {exact}, expected {lo if r <= 0 else hi}")
                     vs = float(f(ts))
                     want = lo_f if r <= 0 else hi_f
-                    require(vs == want, "ext:low" if r <= 0 else "ext:high",
+                    require(vs == want or len(pos) + len(neg) + ep + en >= 2**53, f"ext:{m}:low" if r <= 0 else f"ext:{m}:high",
                             lambda: f"{tag}{m} config={sc}/{ec} method={meth} scalar r={r!r}: "
                                     f"threshold {ts!r} gives {vs!r}, expected {want!r}")
 
 
+def _with_sentinels(s, kind):
+    """The lowest / highest score replaced by -/+ the largest finite float (a common 'comparison
+    failed' sentinel): still a finite score."""
+    import sys
+
+    if not kind or s.get("container") not in ("f64", "list", "f128") or s["mode"] in ("int", "uint"):
+        return s, False
+    big = sys.float_info.max
+    pos, neg = list(s["pos"]), list(s["neg"])
+    allv = [(v, "p", i) for i, v in enumerate(pos)] + [(v, "n", i) for i, v in enumerate(neg)]
+    if not allv:
+        return s, False
+    for want, val in (("low", -big), ("high", big)):
+        if kind in (want, "both"):
+            v, c, i = (min if want == "low" else max)(allv, key=lambda z: z[0])
+            (pos if c == "p" else neg)[i] = val
+            allv = [(v, "p", i) for i, v in enumerate(pos)] + [(v, "n", i) for i, v in enumerate(neg)]
+    return dict(s, pos=pos, neg=neg), True
+
+
 def check(case):
-    s = case["s"]
+    s, sent = _with_sentinels(case["s"], case.get("sentinel"))
     _check_obj(s, case["targets"], case["scalar_idx"])
     # the two extreme targets written as an integer array
     _check_obj(s, [0, 1, -1, 2], case["scalar_idx"] % 4, tag="integer targets: ", int_array=True)
     labels = [f"mode:{s['mode']}"]
+    if sent:
+        labels.append("float-max-sentinel")
     if s["ep"] or s["en"]:
         labels.append("easy")
     if len(s["pos"]) == 1 or len(s["neg"]) == 1:
@@ -126,6 +164,13 @@ def check_sizes(case):
     return dict(nontrivial=True, labels=["sizes"])
 
 
+def _easy_swamps_scored(case):
+    """D17: more than 2^53 easy samples per scored sample; `hard_ratio = 1 - easy_ratio` is then 0."""
+    s = case["s"]
+    scored = len(s["pos"]) + len(s["neg"])
+    return scored > 0 and (s["ep"] + s["en"]) >= scored * 2**53
+
+
 PROP = Prop(
     id="C03",
     rule=("Hypothesis: score sets (ties, tie-free, floats |x|<=1e6, int dtype, single-sample "
@@ -145,7 +190,10 @@ PROP = Prop(
                min_nontrivial=100,
                doc="all (N, nb_easy) size pairs up to the bound (rounding-sensitive rescaling)"),
     ],
-    assumptions=["'moderate magnitude' is taken as |score| <= 1e6"],
+    predicates={"easy_swamps_scored": _easy_swamps_scored},
+    assumptions=["scores: |score| <= 1e6, plus the largest finite float as lowest / highest score",
+                 "easy counts up to 2^55+5; see known finding D17 for TOPR/TONR when easy samples "
+                 "outnumber the scored ones by more than 2^53"],
 )
 
 RULE_EXTRA = ('score containers as in C02 (incl. uint8/uint16/bool and long double); integral targets written as Python ints and as an integer array; one target array object re-used across all calls of a case, expectations taken from the pristine target list.')
